@@ -340,7 +340,14 @@ func isUnsignedType(t types.Type) bool {
 // one branch, all others fork. It returns the set of instructions that can execute. Each (block, predecessor) pair
 // is expanded once, so loops terminate.
 func explore(f *ssa.Function, env *cmpEnv) map[ssa.Instruction]bool {
+	v, _ := exploreForks(f, env)
+	return v
+}
+
+// exploreForks also returns the If instructions whose condition could not be evaluated (both branches were taken).
+func exploreForks(f *ssa.Function, env *cmpEnv) (map[ssa.Instruction]bool, []*ssa.If) {
 	visited := map[ssa.Instruction]bool{}
+	var forks []*ssa.If
 	type st struct{ b, prev *ssa.BasicBlock }
 	seen := map[st]bool{}
 	var evalCond func(v ssa.Value, prev *ssa.BasicBlock, depth int) (bool, bool)
@@ -426,6 +433,7 @@ func explore(f *ssa.Function, env *cmpEnv) map[ssa.Instruction]bool {
 						walk(b.Succs[1], b)
 					}
 				} else {
+					forks = append(forks, x)
 					walk(b.Succs[0], b)
 					walk(b.Succs[1], b)
 				}
@@ -439,5 +447,5 @@ func explore(f *ssa.Function, env *cmpEnv) map[ssa.Instruction]bool {
 		}
 	}
 	walk(f.Blocks[0], nil)
-	return visited
+	return visited, forks
 }
